@@ -121,6 +121,26 @@ def case_operator(col, p):
         worst = max(worst, err / 1e-12)
         if abs(od.sum() - 1.0) > 1e-12:
             col.violation('C08:project:total', dict(p, unit=idx), {'total': float(od.sum())})
+        # the projection is linear: a negative entry (residuals, differences of spectra, bias-corrected counts) projects to minus the row
+        outn = dadi.Spectrum(-2.5 * data, mask_corners=False).project(list(ns_to))
+        col.tick(transitions=1)
+        if not float(np.abs(np.asarray(outn.data) + 2.5 * ex).max()) <= 1e-12 * 2.5:
+            col.violation('C08:project:negative_entries', dict(p, unit=idx), {'maxerr': float(np.abs(np.asarray(outn.data) + 2.5 * ex).max())})
+        # the same OBJECT changed in place and projected again (a second call must see the new contents)
+        fs *= 3.0
+        fs.mask[idx] = False
+        out2 = fs.project(list(ns_to))
+        col.tick(transitions=1)
+        if not float(np.abs(np.asarray(out2.data) - 3.0 * ex).max()) <= 3e-12:
+            col.violation('C08:project:stale_after_inplace_change', dict(p, unit=idx, change='fs *= 3'), {'maxerr': float(np.abs(np.asarray(out2.data) - 3.0 * ex).max())})
+        fs.mask[idx] = True
+        out3 = fs.project(list(ns_to))
+        col.tick(transitions=1)
+        exm3 = np.array([v != 0 for v in rows[0]])
+        for r in rows[1:]:
+            exm3 = np.logical_and.outer(exm3, np.array([v != 0 for v in r]))
+        if not np.array_equal(np.ma.getmaskarray(out3), exm3):
+            col.violation('C08:project:stale_after_inplace_change', dict(p, unit=idx, change='entry masked'), '')
         # singleton mask: image = support of the weight row
         mask = np.zeros(shape, dtype=bool)
         mask[idx] = True
@@ -141,6 +161,39 @@ def case_operator(col, p):
     col.observe('operator_abs', worst)
     col.tick(states=int(np.prod(shape)))
     col.distinct('nontrivial', ('op', ns_from, ns_to))
+
+
+def case_count_dict(col, p):
+    """from_data_dict with the corners kept: every configuration of calls in two analysed populations (also the ones monomorphic in both: sites
+    private to a third population, invariant sites) lands on its hypergeometric row, corners included"""
+    import dadi
+    nA, nB = p['ns']
+    dd = {}
+    k = 0
+    for a in range(nA + 1):
+        for b in range(nB + 1):
+            for rep in range(1 + (a + b) % 2):
+                dd['s%d' % k] = {'segregating': ['A', 'T'], 'calls': {'A': (nA - a, a), 'B': (nB - b, b), 'C': (1, 1)}, 'outgroup_allele': 'A',
+                                 'context': '-A-', 'outgroup_context': '-A-'}
+                k += 1
+    n = 0
+    for mA in range(1, nA + 1):
+        for mB in range(1, nB + 1):
+            fs = dadi.Spectrum.from_data_dict(dd, ['A', 'B'], [mA, mB], mask_corners=False)
+            col.tick(transitions=1)
+            n += 1
+            tA, tB = _exact_row_table(nA, mA), _exact_row_table(nB, mB)
+            ex = np.zeros((mA + 1, mB + 1))
+            for a in range(nA + 1):
+                for b in range(nB + 1):
+                    w = 1 + (a + b) % 2
+                    ex += w * np.multiply.outer(np.array([float(v) for v in tA[a]]), np.array([float(v) for v in tB[b]]))
+            gd = np.asarray(fs.data)
+            if gd.shape != ex.shape or not float(np.abs(gd - ex).max()) <= 1e-11 or np.ma.getmaskarray(fs).any():
+                col.violation('C08:from_data_dict:corners_kept', dict(p, proj=(mA, mB)),
+                              {'maxerr': float(np.abs(gd - ex).max()) if gd.shape == ex.shape else 'shape', 'corner_got': float(gd.flat[0]), 'corner_exp': float(ex.flat[0])})
+    col.tick(states=n, traces=n)
+    col.distinct('nontrivial', ('count_dict', nA, nB))
 
 
 def case_maskpairs(col, p):
@@ -463,7 +516,7 @@ def case_cache_history(col, p):
     col.distinct('nontrivial', ('cache_history', p['depth']))
 
 
-CASES = {'cache_history': case_cache_history, 'weights': case_weights, 'operator': case_operator, 'maskpairs': case_maskpairs, 'misc': case_misc, 'bfs': case_bfs}
+CASES = {'count_dict': case_count_dict, 'cache_history': case_cache_history, 'weights': case_weights, 'operator': case_operator, 'maskpairs': case_maskpairs, 'misc': case_misc, 'bfs': case_bfs}
 
 
 def _dispatch(col, case):
@@ -513,6 +566,8 @@ def run(ctx):
     for n in (41, 66, 100, 200):
         cases.append({'kind': 'misc', 'what': 'mask_window', 'n': n})
     cases.append({'kind': 'cache_history', 'depth': 2 if ctx.quick else 3})
+    for ns_cd in ((4, 3), (6, 2), (5, 5)):
+        cases.append({'kind': 'count_dict', 'ns': ns_cd})
     # C
     starts = [((4,), None), ((5,), (2,)), ((3, 4), None), ((3, 4), (1, 2)), ((4, 4), (0, 3)), ((3, 2, 3), None), ((3, 2, 3), (1, 1, 1))]
     if not ctx.quick:
